@@ -1233,9 +1233,11 @@ class MemoryCache:
         if has_result:
             self._put_ref(cache_key, result)
 
-        # If the object is too big to fit in the cache, return immediately
+        # If the object is too big to fit in the cache, do not cache it. Any entry cached
+        # earlier for this call is now stale and must not be served any more.
         obj_size = self._estimate_object_size(result)
         if obj_size > self.memory_cache_bytes:
+            self._evict(cache_key)
             return
 
         # "view busting"
